@@ -13,7 +13,9 @@ import hashlib
 import json
 import multiprocessing
 import os
+import signal
 import sys
+import threading
 import time
 import traceback
 from collections import Counter
@@ -24,6 +26,10 @@ NPROC = int(os.environ.get('VERIF_NPROC', '16'))
 
 
 class HarnessError(Exception):
+    pass
+
+
+class CaseTimeout(BaseException):
     pass
 
 
@@ -96,11 +102,34 @@ class Recorder:
         self.seed = 1
 
     def execute(self, case):
+        # A single case works on tiny inputs and takes micro- to milliseconds (the largest, a one-million-byte text,
+        # under five seconds).  If the code under test loops forever without ever sleeping, nothing else would notice:
+        # a per-case alarm of CASE_TIMEOUT seconds turns that into a reported failure instead of a hung check.
+        use_alarm = (hasattr(signal, 'SIGALRM') and threading.current_thread() is threading.main_thread()
+                     and getattr(self.mod, 'CASE_TIMEOUT', 300) > 0)
+        if use_alarm:
+            def on_alarm(signum, frame):
+                raise CaseTimeout()
+            old = signal.signal(signal.SIGALRM, on_alarm)
+            signal.alarm(getattr(self.mod, 'CASE_TIMEOUT', 300))
+        try:
+            return self._execute(case)
+        except CaseTimeout:
+            return [fail('no-termination', f'one case did not finish within {getattr(self.mod, "CASE_TIMEOUT", 300)} s '
+                                           f'(normal: milliseconds): {canon(case)[:300]}')]
+        finally:
+            if use_alarm:
+                signal.alarm(0)
+                signal.signal(signal.SIGALRM, old)
+
+    def _execute(self, case):
         try:
             return list(self.mod.run_case(case))
         except Violation:
             raise
         except HarnessError:
+            raise
+        except CaseTimeout:
             raise
         except BaseException as exc:  # noqa: BLE001
             if isinstance(exc, (KeyboardInterrupt, SystemExit)):
